@@ -324,12 +324,21 @@ func (e *env) runOnce(c Case, path string, order []string) (map[string]interface
 	if err != nil {
 		return nil, err
 	}
+	// the indexes again, after the look-ups
+	idx2 := map[string]interface{}{}
+	for _, ix := range e.cfg.Indexes {
+		groups, err := e.indexGroups(rc, ix)
+		if err != nil {
+			return nil, err
+		}
+		idx2[ix.Name] = groups
+	}
 	ord := make([]interface{}, len(order))
 	for i, u := range order {
 		ord[i] = u
 	}
 	return map[string]interface{}{"ev": "cache", "cfg": e.cfg, "pre": rowsJSON(c.Pre), "post": rowsJSON(c.Post),
-		"order": ord, "path": path, "err": applyErr, "rows": rows, "idx": idx, "lookups": lookups}, nil
+		"order": ord, "path": path, "err": applyErr, "rows": rows, "idx": idx, "lookups": lookups, "idx2": idx2}, nil
 }
 
 func rowsJSON(m map[string]Row) map[string]interface{} {
